@@ -2,6 +2,7 @@ package slog
 
 import (
 	"context"
+	"encoding/json"
 	"fmt"
 	logslog "log/slog"
 	"strings"
@@ -240,12 +241,19 @@ func (level Level) ShortTag(length int) string {
 }
 
 func (level *Level) UnmarshalJSON(text []byte) error {
-	return level.UnmarshalText(text)
+	var name string
+	if err := json.Unmarshal(text, &name); err != nil {
+		return err
+	}
+	return level.UnmarshalText([]byte(name))
 }
 
 func (level Level) MarshalJSON() ([]byte, error) {
 	b, err := level.MarshalText()
-	return []byte(fmt.Sprintf("%q", string(b))), err
+	if err != nil {
+		return nil, err
+	}
+	return json.Marshal(string(b))
 }
 
 // UnmarshalText implements encoding.TextUnmarshaler.
